@@ -61,8 +61,8 @@ P("C05", [("V10", None), ("V3", None), ("V18", None), ("V23", None), ("K11", r"^
   "contract-based deductive verification: Verus on mechanically extracted function text")
 
 P("C03", [("V5", None), ("V20", None), ("V25", None)],
-  "proof",
-  "Partial (function-level links): Verus proves on the verbatim text of the SLG answer stream that every yielded answer is the table's answer at the stream's current index with "
+  "other",
+  "Partial (function-level links; level `other` because ONE obligation is refuted as a recorded known finding - every other obligation is an unbounded Verus proof): Verus proves on the verbatim text of the SLG answer stream that every yielded answer is the table's answer at the stream's current index with "
   "binders, substitution, constraints and ambiguity flag unchanged and no delayed subgoals (answers awaiting refinement are never yielded), that next_answer strictly advances the "
   "index (an index is handed out at most once) and that QuantumExceeded is only reported when the caller's callback returned false. On the verbatim text of "
   "merge_answer_into_strand it proves that consuming answer k of a positive subgoal queues, on the table being evaluated and right behind what was queued, a copy of the strand asking for answer k+1 "
@@ -70,6 +70,7 @@ P("C03", [("V5", None), ("V20", None), ("V25", None)],
   "On the real Table struct (real Vec / VecDeque, hash map abstract) it proves that push_answer publishes an answer exactly when no answer with the same canonical substitution was published before, "
   "returns its index, keeps 'published answers pairwise differ in their substitution' invariant, and that answer(i) / next_answer_index / enqueue_strand are what the other units assume. "
   "Unbounded, partial correctness.",
+  "KNOWN FINDING (known_findings.json): merge_answer_into_strand panics ('Negative subgoal had delayed_subgoals') when a negative literal's subgoal sits on a coinductive cycle - the obligation 'the panic is unreachable' is refuted and nothing in the callers establishes it (failing input: notes/c03_negative_coinductive.chalk, goal `X: C1, not { X: C2 }`). "
   "Not reached: soundness/completeness of the rest of the state machine behind ensure_root_answer (havoc here), that answers reaching push_answer are canonicalized (so that equal answers have equal substitutions), "
   "the solve_multiple callback loop (&mut dyn FnMut is outside Verus), termination.",
   "contract-based deductive verification: Verus on mechanically extracted function text, callee havoc contracts, in-place loop invariant")
